@@ -476,6 +476,14 @@ class Check(common.Check):
 
     # ------------------------------------------------------------------ oracle
     def oracle(self, case, out):
+        ru = out.get('reuse')
+        if ru:      # constructor arguments belong to the caller
+            if 'changed' in ru:
+                what = f'the call changed the caller\'s arguments from {ru["changed"][0]} to {ru["changed"][1]}'
+            else:
+                what = (f'a second call with the same argument objects gives {ru["second"][1]}, '
+                        f'the first gave {ru["second"][0]}')
+            return {'what': f'{case["ctor"]}: {what}', 'signature': 'env:ctor-args'}
         # the node-parameter entry point: the control value is the EnvGen array of every channel
         fm, ctl = out.get('fmt'), out.get('ctl')
         if not isinstance(fm, str) and ctl is not None:
